@@ -12,8 +12,9 @@ cp -f /repo/go.sum go.sum 2>/dev/null
 BIN=".build/vw-$ID"
 MODFLAG=""
 if [ -n "$VERIF_REPO" ]; then
-  sed "s|=> /repo|=> $VERIF_REPO|" go.mod > ".build/alt-$ID.mod"; cp -f go.sum ".build/alt-$ID.sum"
-  MODFLAG="-modfile=.build/alt-$ID.mod"; BIN=".build/vw-$ID-alt"
+  H=$(echo "$VERIF_REPO" | md5sum | cut -c1-8)
+  sed "s|=> /repo|=> $VERIF_REPO|" go.mod > ".build/alt-$ID-$H.mod"; cp -f go.sum ".build/alt-$ID-$H.sum"
+  MODFLAG="-modfile=.build/alt-$ID-$H.mod"; BIN=".build/vw-$ID-alt-$H"
 fi
 build() { # $1 = output, rest = extra flags
   local out="$1"; shift
